@@ -20,13 +20,30 @@ struct ModelSpec {
   int nc;
   std::vector<NetSpec> nets;
   double span = 1;
+  bool exactAssembly = false;  // weights, offsets and fixed positions are small dyadic numbers: sums and products are exact in float
 };
 
-static ModelSpec genModel(Rng &rng, bool twoPinOnly) {
+static ModelSpec genModel(Rng &rng, bool twoPinOnly, bool allowPads = false) {
   ModelSpec m;
   m.nc = (int)rng.range(1, 12);
   // magnitude ladder for coordinates and offsets (tolerances are relative to the span)
   float mag = rng.chance(0.7) ? 1.0f : (float)rng.pick(std::vector<double>{16.0, 1024.0, 16384.0});
+  if (allowPads && rng.chance(0.004)) {
+    // many anchored cells in one component (a count around a multiple of 256), each tied to its own fixed pin and to the head
+    // of a chain that carries heavy leaves: hundreds of anchors, yet a tail that is only weakly held
+    int pads = (int)rng.pick(std::vector<int>{255, 256, 257}), chain = (int)rng.range(40, 80);
+    bool leaves = rng.chance(0.7);
+    m.nc = pads + chain + (leaves ? chain : 0);
+    auto two = [&](int a, int b, float wt) { NetSpec t; t.hasFix = false; t.c = {a, b}; t.o = {0.0f, 0.0f}; t.w = wt; t.mn = t.mx = 0; m.nets.push_back(t); };
+    for (int p = 0; p < pads; ++p) {
+      NetSpec t; t.hasFix = true; t.c = {p}; t.o = {0.0f}; t.w = 1.0f; t.mn = t.mx = (float)rng.range(900, 1100); m.span = std::max(m.span, (double)t.mn); m.nets.push_back(t);
+      two(p, pads, 1.0f);
+    }
+    for (int k = 0; k + 1 < chain; ++k) two(pads + k, pads + k + 1, 1.0f);
+    if (leaves) for (int k = 0; k < chain; ++k) two(pads + k, pads + chain + k, 32.0f);
+    m.exactAssembly = true;
+    return m;
+  }
   if (rng.chance(0.04)) {
     // a long chain of two-pin nets hanging from one or two fixed pins, the pins of each net in either order: a weakly
     // anchored component whose optimum is known to the dense reference but which is sensitive to any spurious tie
@@ -54,6 +71,7 @@ static ModelSpec genModel(Rng &rng, bool twoPinOnly) {
       m.nets.push_back(t);
     }
     for (int i = (int)m.nets.size() - 1; i > 0; --i) if (rng.chance(0.5)) std::swap(m.nets[i], m.nets[rng.range(0, i)]);
+    m.exactAssembly = true;
     return m;
   }
   int nn = (int)rng.range(1, 15);
@@ -101,6 +119,9 @@ static bool bitEqual(const std::vector<float> &a, const std::vector<float> &b) {
   if (a.size() != b.size()) return false;
   for (size_t i = 0; i < a.size(); ++i) {
     if (std::isnan(a[i]) && std::isnan(b[i])) continue;
+    // scaling by a power of two is exact only while nothing underflows: entries that are zero up to 1e-25 (variables that
+    // conjugate gradient has not reached yet, products of tiny numbers in the denormal range) are compared as zero
+    if (std::fabs(a[i]) < 1e-25f && std::fabs(b[i]) < 1e-25f) continue;
     if (memcmp(&a[i], &b[i], sizeof(float)) != 0) return false;
   }
   return true;
@@ -182,18 +203,36 @@ struct Dense {
 
 
 // 1-norm condition number via explicit inverse (N <= ~40)
-static double cond1(const Dense &D) {
+// inverse by Gauss-Jordan elimination with partial pivoting (double precision); false when singular
+static bool invert(const std::vector<std::vector<double>> &A, std::vector<std::vector<double>> &inv) {
+  int n = (int)A.size();
+  std::vector<std::vector<double>> M = A;
+  inv.assign(n, std::vector<double>(n, 0));
+  for (int i = 0; i < n; ++i) inv[i][i] = 1;
+  for (int c = 0; c < n; ++c) {
+    int p = c;
+    for (int i = c + 1; i < n; ++i) if (std::fabs(M[i][c]) > std::fabs(M[p][c])) p = i;
+    if (std::fabs(M[p][c]) < 1e-300) return false;
+    std::swap(M[p], M[c]);
+    std::swap(inv[p], inv[c]);
+    double d = 1.0 / M[c][c];
+    for (int j = 0; j < n; ++j) { M[c][j] *= d; inv[c][j] *= d; }
+    for (int i = 0; i < n; ++i) {
+      if (i == c || M[i][c] == 0) continue;
+      double f = M[i][c];
+      for (int j = 0; j < n; ++j) { M[i][j] -= f * M[c][j]; inv[i][j] -= f * inv[c][j]; }
+    }
+  }
+  return true;
+}
+static double cond1(const Dense &D, std::vector<std::vector<double>> *invOut = nullptr) {
   int n = D.N;
   double na = 0, ni = 0;
   for (int j = 0; j < n; ++j) { double s = 0; for (int i = 0; i < n; ++i) s += std::fabs(D.A[i][j]); na = std::max(na, s); }
-  std::vector<std::vector<double>> inv(n, std::vector<double>(n, 0));
-  for (int j = 0; j < n; ++j) {
-    std::vector<double> e(n, 0), x;
-    e[j] = 1;
-    if (!gauss(D.A, e, x)) return 1e300;
-    for (int i = 0; i < n; ++i) inv[i][j] = x[i];
-  }
+  std::vector<std::vector<double>> inv;
+  if (!invert(D.A, inv)) return 1e300;
   for (int j = 0; j < n; ++j) { double s = 0; for (int i = 0; i < n; ++i) s += std::fabs(inv[i][j]); ni = std::max(ni, s); }
+  if (invOut) *invOut = inv;
   return na * ni;
 }
 // normwise backward error of the library solution (first nc unknowns given, auxiliary star nodes eliminated exactly)
@@ -226,10 +265,37 @@ static double backwardError(const Dense &D, const std::vector<float> &sol, int n
   return std::sqrt(rn) / (std::sqrt(an) * std::max(std::sqrt(xn), span) + std::sqrt(bn) + 1e-300);
 }
 // Compare a library solution with the dense optimum. Well-conditioned: distance <= 2e-3 span.  Always: backward error <= 1e-4.
-static void compareWithDense(const Dense &D, const std::vector<double> &x, const std::vector<float> &sol, int nc, double span, CaseResult &r, const std::string &key, const std::string &ctx, double condFactor) {
-  double c = cond1(D);
+static void compareWithDense(const Dense &D, const std::vector<double> &x, const std::vector<float> &sol, int nc, double span, CaseResult &r, const std::string &key, const std::string &ctx, double condFactor, bool exactAssembly = false) {
+  std::vector<std::vector<double>> inv;
+  double c = cond1(D, &inv);
   double err = 0;
   for (int i = 0; i < nc; ++i) err = std::max(err, std::fabs(x[i] - sol[i]));
+  // component-wise sensitivity (Skeel): |dx| <= |A^-1| (|A| |x| + |b|) gamma for relative data perturbations of size gamma.
+  // Diagnostic: the largest error of a cell in units of that bound at gamma = float epsilon.
+  if (!inv.empty()) {
+    int n = D.N;
+    std::vector<double> g(n, 0);
+    for (int j = 0; j < n; ++j) { double sx = std::fabs(D.b[j]); for (int k = 0; k < n; ++k) sx += std::fabs(D.A[j][k]) * std::max(std::fabs(x[k]), 0.0); g[j] = sx; }
+    double worst = 0;
+    for (int i = 0; i < nc; ++i) {
+      double bi = 0;
+      for (int j = 0; j < n; ++j) bi += std::fabs(inv[i][j]) * g[j];
+      bi = bi * 6e-8 + 1e-6 * span;
+      worst = std::max(worst, std::fabs(x[i] - sol[i]) / bi);
+    }
+    // component-wise forward bound: on the unchanged tree every star instance stays below 1 unit and every two-pin instance
+    // below 16 units (quick + thorough, several seeds); the limits are 8 units (star; fewer than 1 in 10^4 instances exceed 1 unit, none 2) and 160 units (two-pin)
+    // when the system is assembled without any rounding (small dyadic data) only the solver and the final rounding contribute:
+    // 3 units for the star model
+    double cwLimit = condFactor <= 4.0 ? (exactAssembly ? 3.0 : 8.0) : 160.0;
+    if (exactAssembly && condFactor <= 4.0) r.count(worst < 0.5 ? "exact_assembly_cw_err_lt_0.5" : worst < 1 ? "exact_assembly_cw_err_lt_1" : worst < 2 ? "exact_assembly_cw_err_lt_2" : "exact_assembly_cw_err_ge_2");
+    if (worst > cwLimit) {
+      char buf[200];
+      snprintf(buf, sizeof buf, " a cell deviates from the optimum by %.1f x its component-wise float sensitivity |A^-1|(|A||x|+|b|) eps (limit %.0f; max |x - x_ref| = %g, span %g, cond1 %g)", worst, cwLimit, err, span, c);
+      r.fail(key, ctx + buf);
+    }
+    r.count(worst < 1 ? "cw_err_lt_1" : worst < 2 ? "cw_err_lt_2" : worst < 4 ? "cw_err_lt_4" : worst < 8 ? "cw_err_lt_8" : worst < 16 ? "cw_err_lt_16" : worst < 64 ? "cw_err_lt_64" : "cw_err_ge_64");
+  }
   double be = backwardError(D, sol, nc, span);
   if (!(be <= 1e-4)) r.fail(key, ctx + " normwise backward error " + std::to_string(be) + " (max |x - x_ref| = " + std::to_string(err) + ", span " + std::to_string(span) + ", cond " + std::to_string(c) + ")");
   {
@@ -277,7 +343,7 @@ static NetModel::Parameters tightParams(Rng &rng) {
 
 // (c) least squares: initial star model, any degree
 static void lsqStarCase(Rng &rng, CaseResult &r) {
-  ModelSpec m = genModel(rng, false);
+  ModelSpec m = genModel(rng, false, true);
   NetModel::Parameters P = tightParams(rng);
   if (r.needSample()) r.sample = vf::J::obj().kv("what", "solveStar vs dense weighted least squares").kraw("model", specJson(m)).str();
   if (r.dumpOnly) return;
@@ -299,7 +365,7 @@ static void lsqStarCase(Rng &rng, CaseResult &r) {
   }
   std::vector<double> x;
   if (!D.positiveDefinite() || !gauss(D.A, D.b, x)) { r.count("skipped_not_positive_definite"); r.sig = "skip"; return; }
-  compareWithDense(D, x, sol, m.nc, m.span, r, "C17:star-solution-is-not-the-weighted-least-squares-optimum", "solveStar:", 4.0);
+  compareWithDense(D, x, sol, m.nc, m.span, r, "C17:star-solution-is-not-the-weighted-least-squares-optimum", "solveStar:", 4.0, m.exactAssembly);
   r.count("compared");
   r.nontrivial = fractional;
   r.sig = "star n" + std::to_string(m.nc) + "k" + std::to_string(m.nets.size()) + (fractional ? "f" : "i");
@@ -307,7 +373,7 @@ static void lsqStarCase(Rng &rng, CaseResult &r) {
 
 // (c) least squares: 2-pin nets under every net model (all reduce to a reweighted bipoint)
 static void lsqTwoPinCase(Rng &rng, CaseResult &r) {
-  ModelSpec m = genModel(rng, true);
+  ModelSpec m = genModel(rng, true, true);
   NetModel::Parameters P = tightParams(rng);
   std::vector<float> pl(m.nc), target(m.nc), strength(m.nc);
   for (int i = 0; i < m.nc; ++i) { pl[i] = (float)rng.range(-200, 200); target[i] = (float)rng.range(-200, 200); strength[i] = (float)rng.pick(std::vector<double>{0.0, 0.03, 0.25, 1.0, 2.5}); }
@@ -378,8 +444,11 @@ static void scaleModelCase(Rng &rng, CaseResult &r, bool dyadic) {
   if (dyadic) {
     if (!bitEqual(sa, sb)) {
       double e = 0;
-      for (int i = 0; i < m.nc; ++i) e = std::max(e, (double)std::fabs(sa[i] - sb[i]));
-      r.fail("C17:power-of-two-scaling-changes-the-solution", "factor " + std::to_string(k) + " api " + std::to_string(api) + " max difference " + std::to_string(e));
+      int at = -1;
+      for (int i = 0; i < m.nc; ++i) if (memcmp(&sa[i], &sb[i], sizeof(float)) != 0 && (at < 0 || std::fabs(sa[i] - sb[i]) > e)) { e = std::fabs(sa[i] - sb[i]); at = i; }
+      char buf[160];
+      snprintf(buf, sizeof buf, " max difference %.9g at cell %d (%.9g vs %.9g), %d cells", e, at, at >= 0 ? sa[at] : 0.0, at >= 0 ? sb[at] : 0.0, m.nc);
+      r.fail("C17:power-of-two-scaling-changes-the-solution", "factor " + std::to_string(k) + " api " + std::to_string(api) + buf);
     }
   } else {
     // exact system of the unscaled problem: well-posed (positive definite) and well-conditioned instances only
